@@ -208,6 +208,11 @@ def check_case(ctx, case, drv):
                     rv = obs[tag(o)]["values"][pi][which]
                     if mv != rv:
                         ctx.disagreement("residual-under-options", dict(jcase, options=o, which=which, point=pi), mv, rv)
+                    if which == "dae":
+                        dv = a["delay"][pi]["c"]
+                        rd = obs[tag(o)]["values"][pi]["delay"]
+                        if dv != rd:
+                            ctx.disagreement("delay-arguments-under-options", dict(jcase, options=o, point=pi), dv, rd)
     n = sum(len(v["dae"]) if isinstance(v["dae"], list) else 0 for v in b["values"])
     return status if (status != "ok" or (any(exact) and n)) else "trivial"
 
